@@ -151,3 +151,25 @@ package poseidon
 //@   props C10
 //@   circuit
 //@   ensures res == bn_p0(0, 0, left, right)
+
+// Sponge over Goldilocks inputs (overwrite mode, rate 3 field elements = 9 Goldilocks elements,
+// three 64-bit elements packed little-endian into one BN254 element).
+//@ def bn_pack3(inp, o) = inp[o] + ite(o + 1 < len(inp), inp[o+1] * pow2(64), 0) + ite(o + 2 < len(inp), inp[o+2] * pow2(128), 0)
+//@ def bn_absorb(inp, st, i) = tuple(st[0], ite(i < len(inp), bn_pack3(inp, i), st[1]), ite(i + 3 < len(inp), bn_pack3(inp, i + 3), st[2]), ite(i + 6 < len(inp), bn_pack3(inp, i + 6), st[3]))
+//@ recdef bn_sponge(inp []int, st [4]int, i int) [4]int = ite(i >= len(inp), st, bn_sponge(inp, bn_pt(bn_absorb(inp, st, i)), i + 9))
+//@ def bn_hash_no_pad(inp) = bn_sponge(inp, tuple(0, 0, 0, 0), 0)[0]
+//@ def bn_hash_or_noop(inp) = ite(len(inp) <= 3, ite(len(inp) == 0, 0, bn_pack3(inp, 0)), bn_hash_no_pad(inp))
+//@ def canonSeq(s) = forall(k, 0, len(s), canon(s[k]))
+
+//@ func (c *BN254Chip) HashNoPad(input []gl.Variable) (res BN254HashOut)
+//@   props C10
+//@   circuit
+//@   requires canonSeq(input)
+//@   ensures res == bn_hash_no_pad(input)
+//@   loop 0 invariant 0 <= i && i % 9 == 0 && i <= len(input) + 8 && bn_sponge(input, state, i)[0] == bn_hash_no_pad(input)
+
+//@ func (c *BN254Chip) HashOrNoop(input []gl.Variable) (res BN254HashOut)
+//@   props C10
+//@   circuit
+//@   requires canonSeq(input)
+//@   ensures res == bn_hash_or_noop(input)
